@@ -6,7 +6,7 @@ from collections import Counter
 from .core import VERIF
 from .lib import callers, status_const_of_ctor
 from .lib_c16 import (PANIC_KINDS_TEXT, SELECT_OUT, SERVE, SPAWN, accept_arms, after_await, awaits, discr_switches, exits_only_on_close_signal,
-                      load_panic_table, norm_fid, panic_sites, result_switches_of, return_defs, rta_region, server_task, slice_has_call_at, variant_edge)
+                      load_panic_table, norm_fid, owner_fn, panic_sites, result_switches_of, return_defs, rta_region, server_task, slice_has_call_at, variant_edge)
 
 LEVEL = "other"
 TECHNIQUE = "static analysis: path rules on the MIR of the accept loops and the request wrapper (error edges never leave the loop, never reach a return or a panic), forward flow of connection futures, closed census of potential panic sites over the accept-path and request-path call-graph regions against a reviewed table"
@@ -218,8 +218,11 @@ def _census(ctx, R, region_name, fids, rows):
     where = {}
     for fid in sorted(fids):
         g = ctx.ds.F[fid]
+        # a site is attributed to the source-level function item it is written in: whether it sits in the body, in a
+        # closure / async block of it, or in a private helper that was inlined into it is a matter of style
+        item = norm_fid(owner_fn(ctx.ds, g).id)
         for kind, what, bucket, bb in panic_sites(g):
-            k = (region_name, norm_fid(fid), ("macro-" + kind) if bucket else kind, what)
+            k = (region_name, item, ("macro-" + kind) if bucket else kind, what)
             found[k] += 1
             where.setdefault(k, (g, bb))
     for k in sorted(found):
@@ -236,11 +239,11 @@ def _census(ctx, R, region_name, fids, rows):
 
 def r4_panic_census(ctx):
     R = ctx.rule("C18.R4", "panic census: every potential panic site in the call-graph regions of the accept path (start / acceptors) and of http_request_handle_wrap is on "
-                 "tables/c18_panics.txt with a reason and at most the reviewed multiplicity", floor=44)
+                 "tables/c18_panics.txt with a reason and at most the reviewed multiplicity", floor=38)   # one instance per (region, function item, kind, what); 44 before closures were counted with their function
     if not os.path.exists(TABLE):
         ctx.lost(R, "tables/c18_panics.txt")
         return
-    rows, errs = load_panic_table(TABLE)
+    rows, errs = load_panic_table(TABLE, ctx.features)
     for e in errs:
         ctx.check(R, "table-format:%s" % e, False, e, None, nontrivial=False)
     wrap = ctx.need_fn(ctx.ds, R, r"^server::http_request_handle_wrap$")
